@@ -254,7 +254,7 @@ def main():
     wall_cap = P.get("wall_cap", 30)
 
     results = []
-    chunk = max(jobs * 8, min(count, P.get("chunk", 1024 if tier == "quick" else 4096)))
+    chunk = max(jobs * 8, min(count, P.get("chunk", 4096)))
     done = 0
     t_runs = time.time()
     known_pre = load_known()
